@@ -52,7 +52,10 @@ class ResolveOuterVars(ast.NodeTransformer):
             scope = scope.parent
             has = set()
             if isinstance(scope, ScopeFn):
-                has = scope.defined
+                # As in Python, the variables of a class body aren't
+                # visible to the scopes nested in it.
+                if scope.is_fn or isinstance(scope, ScopeGen):
+                    has = scope.defined
             elif isinstance(scope, ScopeLet):
                 has = set(scope.bindings.keys())
             elif isinstance(scope, ScopeGlobal):
